@@ -145,6 +145,20 @@ CLAIMED["C06"] = dict(
     note=TRUST + "relative to one message per fragment id in the considered history (16-bit id space) and authentic fragments (C01).",
     design="§8 C06", technique="Lean 4 proof (split/join induction, slot-consistency invariant) + differential correspondence")
 
+CLAIMED["C07"] = dict(
+    text="Lean theorems, each for every state: a resolution removes exactly its entry from pending_acks, increments exactly one of "
+         "acked/timeouts and is announced by exactly one resolved event (C07_resolve_accounting); _check_timeout resolves only with False "
+         "and only pending datagrams, and afterwards nothing overdue is pending (C07_false_only_after_timeout, "
+         "C07_timeout_resolves_all_due); a True resolution happens only for a datagram the received header names "
+         "(C07_true_only_if_named) and a named datagram was accepted by the peer (C07_ack_names_accepted, via the window refinement of "
+         "C08/C04); a RetrySender reports its first success once and is silent afterwards, a FragmentSender reports exactly when its last "
+         "slot is resolved. The history-level count (exactly one invocation per unretried/guaranteed send) is the composition of these "
+         "steps and is checked by the monitor on every differential run (two-party histories with long round trips, partial loss, stale "
+         "and duplicated ack carriers) - partial as a theorem.",
+    note=TRUST + "InSync (peer's newest within half a ring); user callbacks do not re-enter; 'accepted' is read at endpoint level; "
+         "history-level exactly-once not yet one Lean theorem.",
+    design="§8 C07", technique="Lean 4 proof (per-step bookkeeping theorems, ack-names-accepted composition) + differential correspondence")
+
 REASON_PENDING = "model and theorems for this property are not built yet in this revision (planned, see DESIGN.md §13); not claimed until its check exists"
 
 def main():
